@@ -92,6 +92,100 @@ fn build(c: &Case) -> (cmd::Project, cmd::Remote) {
     (cmd::setup_project(&w), remote)
 }
 
+/// Tie of the model of `check_crate_policies`: random `[policy]` tables (unversioned / versioned
+/// entries, with and without dependency-criteria, matching and stray names and versions) over
+/// graphs in which a crate name occurs in several versions and from several sources.
+fn policies_run(r: &mut Report, d: &mut Driver, rng: &mut Rng, n: u64) {
+    for i in 0..n {
+        let graph = gen::gen_graph(rng, 6);
+        let md = graph.metadata();
+        let mut names: Vec<String> = graph.pkgs.iter().map(|p| p.name.clone()).collect();
+        names.push("zz-stray".into());
+        names.sort();
+        names.dedup();
+        let mut vers: Vec<VetVersion> = graph.pkgs.iter().map(|p| p.version.clone()).collect();
+        vers.extend(gen::version_pool().into_iter().take(4));
+        vers.sort();
+        vers.dedup();
+        let mut config = ConfigFile { cargo_vet: Default::default(), default_criteria: get_default_criteria(), imports: SortedMap::new(), policy: Default::default(), exemptions: SortedMap::new() };
+        let entry = |rng: &mut Rng| PolicyEntry {
+            audit_as_crates_io: if rng.chance(1, 4) { Some(rng.chance(1, 2)) } else { None }, criteria: None, dev_criteria: None,
+            dependency_criteria: { let mut m = CriteriaMap::new(); if rng.chance(1, 2) { m.insert(gen::sp("somedep".to_owned()), vec![gen::sp(SAFE_TO_RUN.to_owned())]); } m },
+            notes: None,
+        };
+        for nm in &names {
+            match rng.below(4) {
+                0 => { config.policy.package.insert(nm.clone(), PackagePolicyEntry::Unversioned(entry(rng))); }
+                1 | 2 => {
+                    let mut vs = SortedMap::new();
+                    let own: Vec<VetVersion> = graph.pkgs.iter().filter(|p| &p.name == nm).map(|p| p.version.clone()).collect();
+                    for v in &own {
+                        if rng.chance(3, 4) { vs.insert(v.clone(), entry(rng)); }
+                    }
+                    if rng.chance(1, 4) { vs.insert(rng.pick(&vers).clone(), entry(rng)); }
+                    if !vs.is_empty() { config.policy.package.insert(nm.clone(), PackagePolicyEntry::Versioned { version: vs }); }
+                }
+                _ => {}
+            }
+        }
+        let store = Store::mock(config.clone(), AuditsFile::default(), ImportsFile { unpublished: SortedMap::new(), publisher: SortedMap::new(), audits: SortedMap::new() });
+        let cfg = mock_cfg(&md);
+        r.evaluations += 1;
+        let real = guarded(|| crate::check_crate_policies(&cfg, &store));
+        // canonical error set: (kind, name, version?)
+        let mut imp: Vec<(usize, usize, usize)> = Vec::new();
+        let rank_n = |s: &str| names.iter().position(|x| x == s).unwrap_or(9999);
+        let rank_v = |v: &VetVersion| vers.iter().position(|x| x == v).unwrap_or(9999);
+        let imp_line = match &real {
+            Ok(Ok(())) => "ok 0".to_owned(),
+            Ok(Err(e)) => {
+                for ce in &e.errors {
+                    match ce {
+                        crate::errors::CratePolicyError::NeedsVersion(x) => for pe in &x.errors { imp.push((0, rank_n(&pe.package), pe.version.as_ref().map(|v| rank_v(v) + 1).unwrap_or(0))); },
+                        crate::errors::CratePolicyError::UnusedVersion(x) => for pe in &x.errors { imp.push((1, rank_n(&pe.package), pe.version.as_ref().map(|v| rank_v(v) + 1).unwrap_or(0))); },
+                        _ => {}
+                    }
+                }
+                imp.sort();
+                format!("ok {} {}", imp.len(), imp.iter().map(|(a, b, c)| format!("{a} {b} {c}")).collect::<Vec<_>>().join(" "))
+            }
+            Err(p) => format!("panic {p}"),
+        };
+        // the model's view
+        let mut t = Toks::new();
+        let entries: Vec<(String, Option<VetVersion>, bool)> = config.policy.iter().map(|(n, v, e)| (n.clone(), v.cloned(), !e.dependency_criteria.is_empty())).collect();
+        t.n(entries.len());
+        for (n, v, dc) in &entries {
+            t.n(rank_n(n));
+            match v { Some(v) => { t.n(rank_v(v) + 1); } None => { t.n(0); } }
+            t.b(*dc);
+        }
+        t.n(md.packages.len());
+        for p in &md.packages {
+            t.n(rank_n(&p.name)).n(rank_v(&p.vet_version()));
+        }
+        // names with a crates.io-sourced package (independent of foreign_packages_strict)
+        let tp: BTreeSet<usize> = graph.pkgs.iter().filter(|p| p.source == 1).map(|p| rank_n(&p.name)).collect();
+        t.list(&tp.into_iter().collect::<Vec<_>>());
+        let ans = d.ask(&format!("policies {}", t.text()));
+        let model_line = match ans.strip_prefix("ok ") {
+            Some(body) => {
+                let toks: Vec<usize> = body.split(' ').filter_map(|x| x.parse().ok()).collect();
+                let mut v: Vec<(usize, usize, usize)> = toks[1.min(toks.len())..].chunks(3).filter(|c| c.len() == 3).map(|c| (c[0], c[1], c[2])).collect();
+                v.sort();
+                format!("ok {} {}", v.len(), v.iter().map(|(a, b, c)| format!("{a} {b} {c}")).collect::<Vec<_>>().join(" ")).trim_end().to_owned()
+            }
+            None => ans.clone(),
+        };
+        let case = format!("policies#{i}: packages {:?}\npolicy {:?}", graph.pkgs.iter().map(|p| format!("{}:{} src{}", p.name, p.version, p.source)).collect::<Vec<_>>(), entries);
+        r.corr("corr.crate-policies", imp_line.trim_end(), &model_line, &case);
+        r.count(if imp.is_empty() { "policies:accepted" } else { "policies:refused" });
+        if !entries.is_empty() {
+            r.nontrivial(&case);
+        }
+    }
+}
+
 pub fn run(r: &mut Report) {
     let mut d = Driver::spawn();
     let (shard, nshards) = shard();
@@ -103,6 +197,10 @@ pub fn run(r: &mut Report) {
         r.rule.push_str(rule08);
     }
     let n = if r.thorough() { 6000 } else { 1200 } / nshards;
+    if r.prop == "C08" {
+        let mut prng = Rng::new(r.seed.wrapping_add(shard.wrapping_mul(7368787)) ^ 0xC08);
+        policies_run(r, &mut d, &mut prng, n * 2);
+    }
     let mut rng = Rng::new(r.seed.wrapping_add(shard.wrapping_mul(86028121)) ^ 0xC08);
     for i in 0..n {
         let mut crng = rng.fork();
